@@ -38,3 +38,7 @@ claim("C13",
       "Decides the first sentence for all inputs and all limits: on every path the content of each of the four nesting constructs (all entry points) is lexed with a parser whose counter was increased exactly once, every other parser-passing edge carries 0, the limit test is `>=` with +1 on a clone, the counter has no other writer, the default is 128; recursive AST nodes are built only where budget is spent, which bounds AST depth for compile/execute/serialize/hash/drop.",
       TB + " Flow-insensitive value-set analysis (over-approximates the deltas possible on a path).",
       "interprocedural abstract interpretation (nesting-delta value sets) over mono MIR")
+claim("C19",
+      "Decides the structural clauses on all paths: catch_panic decrements the level exactly once, unconditionally, after catch_unwind and before inspecting its result, iff start_catching() incremented it; disabled catching runs f transparently; level/enabled cells have no other writers and abort on overflow; all state but the hook flag is thread-local; the hook records iff level > 0, else forwards to the hook captured before installation or aborts; the recorded text contains the payload. The install race and backtrace text are not decided.",
+      TB + " std::panic::catch_unwind/set_hook semantics are trusted.",
+      "HIR path/pairing rule + who-may-write census of thread-locals")
